@@ -74,6 +74,17 @@ func loadFindings(root string) []finding {
 	return f.Findings
 }
 
+// openTags returns the tags of the open findings of a property.
+func openTags(c *runCtx) map[string]bool {
+	m := map[string]bool{}
+	for _, f := range loadFindings(c.Root) {
+		if f.Property == c.ID && f.Status == "open" {
+			m[f.Tag] = true
+		}
+	}
+	return m
+}
+
 func harnessErr(f string, a ...interface{}) {
 	fmt.Printf("HARNESS-ERROR "+f+"\n", a...)
 	os.Exit(2)
